@@ -254,6 +254,23 @@ def run_case(sh, i, plan):
                                 "tuple", "tuple[list, int]", "tuple[typing.Any, ...]", "tuple[dict, ...]", "list[tuple]", "dict[str, tuple]"], 2):
             specs.append(prog.spec("any", src))
             bare_idx.append(len(specs) - 1)
+    gen_idx = []
+    if rng.random() < 0.3:
+        # one user generic class in several parametrisations (and bare): whichever is built first must not shape the others
+        gname = prog.fresh("G")
+        flav = rng.choice(["dataclass", "plain"])
+        if flav == "dataclass":
+            prog.emit(f"_T{gname} = typing.TypeVar('_T{gname}')\n@dataclasses.dataclass\nclass {gname}(typing.Generic[_T{gname}]):\n"
+                      f"    item: _T{gname}\n    tags: typing.List[_T{gname}] = dataclasses.field(default_factory=list)\n")
+        else:
+            prog.emit(f"_T{gname} = typing.TypeVar('_T{gname}')\nclass {gname}(typing.Generic[_T{gname}]):\n"
+                      f"    def __init__(self, item: _T{gname}, tags: typing.List[_T{gname}] = ()):\n        self.item, self.tags = item, list(tags)\n"
+                      f"    def __eq__(self, o):\n        return type(o) is type(self) and (o.item, o.tags) == (self.item, self.tags)\n"
+                      f"    def __repr__(self):\n        return f'{gname}({{self.item!r}}, {{self.tags!r}})'\n")
+        for param in rng.sample(["int", "str", "float", "decimal.Decimal", None, "bool"], rng.choice([2, 3])):
+            specs.append(prog.spec("any", f"{gname}[{param}]" if param else gname))
+            gen_idx.append(len(specs) - 1)
+        sh.count("user_generic_histories")
     prog.build()
     other = None
     extra_progs = []
@@ -334,6 +351,15 @@ def run_case(sh, i, plan):
                     ops.append({"kind": "decode", "t": ti, "x": add(rec["bytes"].encode("latin-1")), "via": rng.choice(["codec", "api"])})
                 else:
                     continue
+            elif ti in gen_idx:
+                w = copy.deepcopy(rng.choice([{"item": 5, "tags": [1, 2]}, {"item": "7", "tags": ["8"]}, {"item": 1.5}, {"item": True, "tags": [0]},
+                                              '{"item": 3, "tags": [4]}']))
+                k2 = rng.choice(["unmarshal", "unmarshal", "decode", "build"])
+                if k2 == "decode":
+                    ops.append({"kind": "decode", "t": ti, "x": add(json.dumps(w).encode() if not isinstance(w, str) else w.encode()), "via": rng.choice(["codec", "api"])})
+                else:
+                    ops.append({"kind": k2, "t": ti, "x": add(w)})
+                sh.count("user_generic_ops")
             elif ti in bare_idx:
                 x0 = rng.choice(["[1, 2]", '{"a": [1, 2]}', "[[1], [2]]", b"[1, 2]", [1, [2]], {"a": {"b": 1}}, "(1, 2)", "{'k': [1]}", '{"a": 1}',
                                  # text that loads to an immutable container holding mutable ones (python-literal tuples / frozen forms)
